@@ -217,7 +217,8 @@ def api_history(draw):
     for _ in range(draw(st.integers(2, 8))):
         kind = draw(st.sampled_from(["query", "query", "query", "extend", "extend", "configure"]))
         if kind == "query":
-            steps.append(["query", draw(st.sampled_from(["value", "url", "curl", "curl"])), draw(st.lists(st.sampled_from(API_NAMES), min_size=1, max_size=4, unique_by=str.lower)), draw(st.sampled_from([None, None, "requests-basic", "requests-custom", "provider"]))])
+            steps.append(["query", draw(st.sampled_from(["value", "url", "curl", "curl"])), draw(st.lists(st.sampled_from(API_NAMES), min_size=1, max_size=4, unique_by=str.lower)), draw(st.sampled_from([None, None, "requests-basic", "requests-custom", "provider"])),
+                          draw(st.lists(st.sampled_from(["s", "s", "i"]), min_size=4, max_size=4))])
         else:
             arg = {}
             if draw(st.booleans()):
@@ -266,7 +267,9 @@ def check_api_history(ctx: Ctx, inp) -> None:
             auth_kind = step[3] if len(step) > 3 and route == "curl" else None
             queried = True
             auth_header = "x-auth-token" if auth_kind == "requests-custom" else "authorization"
-            values = {name: f"CNR{n}x{i}" for i, name in enumerate(names)}
+            # values keep their Python type in the case's containers: numbers and booleans travel there too
+            kinds = step[4] if len(step) > 4 else []
+            values = {name: (91827000 + 100 * n + i if (kinds[i] if i < len(kinds) else "s") == "i" else f"CNR{n}x{i}") for i, name in enumerate(names)}
             sensitive = {name: name.lower() in keys or any(m in name.lower() for m in markers) for name in names}
             if route == "value":
                 item = {"headers": dict(values), "list": [{k: [v] for k, v in values.items()}]}
@@ -277,7 +280,7 @@ def check_api_history(ctx: Ctx, inp) -> None:
                 if "CNRpw" in text:
                     ctx.disagree("api:leak:url-userinfo", f"userinfo survives sanitize_url: {text}", input=inp)
             else:
-                case = operation.Case(headers={k: v for k, v in list(values.items())[::2]}, query={k: v for k, v in list(values.items())[1::2]})
+                case = operation.Case(headers={k: str(v) for k, v in list(values.items())[::2]}, query={k: v for k, v in list(values.items())[1::2]})
                 secret = f"CNRauth{n}"
                 if auth_kind is not None:  # credentials that reach the request through an auth provider, as the documentation shows
                     import requests.auth
@@ -313,6 +316,7 @@ def check_api_history(ctx: Ctx, inp) -> None:
                             ctx.disagree(f"api:leak:curl:auth-provider:{auth_kind}", f"step {n}: credentials set by the auth provider are printed: {text[:300]}", input=inp)
             ctx.case(nontrivial=[inp, n] if changed_after_query else None, classes=[f"route={route}", f"config-changed-after-output={changed_after_query}", f"sensitive={sum(sensitive.values())}/{len(names)}"], sample={"steps": inp["steps"][: n + 1], "output": text[:300]})
             for name, value in values.items():
+                value = str(value)
                 if auth_kind is not None and name.lower() == auth_header:
                     continue  # the provider's own header replaces the one the case carried
                 if sensitive[name] and value in text:
